@@ -518,6 +518,17 @@ impl<M: Manager, W: From<Object<M>>> Pool<M, W> {
     fn resize_locked(&self, slots: &mut Slots<ObjectInner<M>>, max_size: usize) {
         let old_max_size = slots.max_size;
         slots.max_size = max_size;
+        // Release surplus idle objects. This is not limited to a shrinking
+        // resize: an object whose creation was in flight during an earlier
+        // shrink can leave the pool above its limit.
+        while slots.size > slots.max_size {
+            if let Some(mut obj) = slots.vec.pop_front() {
+                slots.size -= 1;
+                self.inner.manager.detach(&mut obj.obj);
+            } else {
+                break;
+            }
+        }
         // shrink pool
         if max_size < old_max_size {
             // Take one permit out of circulation for every slot removed.
@@ -527,15 +538,6 @@ impl<M: Manager, W: From<Object<M>>> Pool<M, W> {
                 match self.inner.semaphore.try_acquire() {
                     Ok(permit) => permit.forget(),
                     Err(_) => slots.debt += 1,
-                }
-            }
-            // Release surplus idle objects
-            while slots.size > slots.max_size {
-                if let Some(mut obj) = slots.vec.pop_front() {
-                    slots.size -= 1;
-                    self.inner.manager.detach(&mut obj.obj);
-                } else {
-                    break;
                 }
             }
             // Create a new VecDeque with a smaller capacity
